@@ -417,10 +417,8 @@ def side_effect(draw, env, depth, bare=True):
         return ["f", fn, q, [["t", nm], e]]
     if k == "tally":
         cols = [(i, c) for i, c in enumerate(env.cols)]
-        n = draw(st.integers(1, 2))
+        n = draw(st.integers(1, min(3, len(cols))))
         chosen = draw(st.lists(st.sampled_from(cols), min_size=n, max_size=n, unique_by=lambda t: t[0]))
-        if any(not c["dense"] for _, c in chosen) and len(chosen) > 1:
-            chosen = chosen[:1]
         nm = env.fresh("tl")
         return ["f", "tally", [nm], [["h", c["name"]] for _, c in chosen]]
     if k == "counter":
